@@ -599,6 +599,22 @@ pub fn run_flags_and_lease_times(ctx: &Ctx, rig: &DhcpWire, flags: &[u16]) {
             rq.options.push((wire::OPT_REQUESTED_IP, o.msg.yiaddr.octets().to_vec()));
             let ack = dhcp_exchange(&rig.raw, &rq, Duration::from_secs(3));
             let ack = check(ack, &rq, &mut out);
+            // RENEWING / REBINDING: ciaddr filled in, no server identifier; the broadcast bit
+            // still decides where the reply goes (once as the client set it, once inverted)
+            if rig.mode == "C12" && out.fail.is_none() {
+                if let Some(a) = &ack {
+                    for (j, fl) in [*f, *f ^ 0x8000].into_iter().enumerate() {
+                        let mut rn = discover(i, 0x4200_0000 + (k << 1) + j as u32, fl);
+                        rn.options.clear();
+                        rn.options.push((wire::OPT_MSG_TYPE, vec![wire::REQUEST]));
+                        rn.ciaddr = a.msg.yiaddr;
+                        let r = dhcp_exchange(&rig.raw, &rn, Duration::from_secs(3));
+                        if check(r, &rn, &mut out).is_none() {
+                            break;
+                        }
+                    }
+                }
+            }
             if rig.mode == "C10" {
                 for (what, fr) in [("OFFER", Some(o)), ("ACK", ack.as_ref())] {
                     let fr = match fr {
@@ -1189,7 +1205,7 @@ pub struct RaceClient {
 
 #[derive(Clone, Debug, Serialize, Deserialize)]
 pub struct RaceCase {
-    /// number of addresses in the pool (10.55.0.50 ..)
+    /// number of addresses in the pool (10.55.0.8 ..)
     pub pool: u8,
     pub clients: Vec<RaceClient>,
     pub rounds: u8,
@@ -1241,7 +1257,8 @@ impl C01Race {
     fn run_case(&self, c: &RaceCase) -> Outcome {
         let mut out = Outcome::default();
         wipe_db();
-        let first = 50u8;
+        // the pool starts at .8 so that pools of 2..6 addresses straddle the 9|10 text-width step
+        let first = 8u8;
         let last = first + c.pool.max(1) - 1;
         let extra = format!(
             "dhcp-policies:\n  - match-subnet: 10.55.0.0/24\n    apply-range: {{start: 10.55.0.{}, end: 10.55.0.{}}}\n",
